@@ -1,13 +1,125 @@
-"""C06 — schedulers run every scheduled item once, on their own context, losing none."""
-import k1
+"""C06 — schedulers run every scheduled item once, on their own context, losing none.
+Unit 1 (K1): manual_event_loop / single_thread_context vs Proto/EventLoopDefs.v.
+Unit 2 (K3): trampoline_scheduler vs Proto/TrampolineDefs.v (sequential: differential on programs).
+Unit 3 (K1): atomic_intrusive_queue vs Proto/AtomicQueueDefs.v."""
+import re
+import k1, vlib
 from units import sched
 LEVEL = "proof"
+
+# ------------------------------------------------------------------------------- trampoline (K3)
+def gen_tree(rng, size, stop_p=0.15):
+    """random tree with `size` nodes as a parenthesised string; '!' = stop already requested"""
+    # random parent for each node (preorder-compatible: parent index < child index)
+    kids = {0: []}
+    for i in range(1, size):
+        shape = rng.random()
+        if shape < 0.35:
+            p = i - 1                      # chain: deep recursion
+        elif shape < 0.55:
+            p = 0                          # fan
+        else:
+            p = rng.randrange(0, i)
+        kids.setdefault(p, []).append(i); kids.setdefault(i, [])
+    def emit(n):
+        return "(" + ("!" if rng.random() < stop_p else "") + "".join(emit(c) for c in kids[n]) + ")"
+    import sys
+    sys.setrecursionlimit(10000)
+    return emit(0)
+
+def tramp_cases(chk):
+    rng = chk.rng
+    thorough = chk.tier == "thorough"
+    cases = []
+    fixed = ["()", "(!)", "(())", "(()())", "((()))", "(()()())", "((()())(!))", "(()(()))",
+             "(" * 20 + ")" * 20, "(" + "()" * 20 + ")", "((" + "()" * 5 + ")" * 2, "(" + "(())" * 6 + ")"]
+    for t in fixed:
+        for d in (0, 1, 2, 3, 4, 16):
+            cases.append((d, t))
+    n = 3000 if thorough else 500
+    for _ in range(n):
+        size = rng.randrange(1, 120 if thorough else 48)
+        d = rng.choice([0, 1, 1, 2, 2, 3, 3, 4, 5, 8, 16])
+        cases.append((d, gen_tree(rng, size)))
+    return cases
+
+def tramp_monitor(d, tree, out):
+    """the property itself on an implementation output line"""
+    m = re.match(r"^(\S*) max=(\d+) returned_after=(\d+)/(\d+) cleared=(\d)$", out)
+    if not m:
+        return "unparsable/crash: " + out[:160]
+    ents = [e.split(":") for e in m.group(1).split(",") if e]
+    total = int(m.group(4))
+    labels = [int(e[0]) for e in ents]
+    if sorted(labels) != list(range(total)):
+        return "not every operation completed exactly once: %r" % labels[:40]
+    if int(m.group(3)) != total:
+        return "outermost start() returned after %s of %d completions" % (m.group(3), total)
+    if m.group(5) != "1":
+        return "trampoline state not cleared when the outermost start() returned"
+    bound = max(d, 1)
+    for l, k, nest, depth in ents:
+        if int(nest) > bound:
+            return "operation %s ran at nesting %s > configured depth %d" % (l, nest, d)
+        if int(nest) > int(depth) or int(depth) > bound:
+            return "operation %s: nesting %s, recursionDepth_ %s, configured %d" % (l, nest, depth, d)
+    # done exactly for the operations whose token was stopped (preorder position of '!')
+    stopped = set(); idx = -1
+    for ch in tree:
+        if ch == "(":
+            idx += 1
+        elif ch == "!":
+            stopped.add(idx)
+    for l, k, nest, depth in ents:
+        if (int(l) in stopped) != (k == "d"):
+            return "operation %s completed with %s, stop requested=%s" % (l, k, int(l) in stopped)
+    return ""
+
+def run_trampoline(chk):
+    exe, err = vlib.build_driver("k3_trampoline", "plain17")
+    if err:
+        p = chk.replay_file("build_k3_trampoline", {"kind": "build-failure", "error": err})
+        chk.violation("trampoline/build", p, no_input=True, text="k3_trampoline no longer compiles against /repo")
+        return
+    cases = tramp_cases(chk)
+    lines = ["tramp %d %s" % c for c in cases]
+    mout = vlib.model_run(lines)
+    iout = vlib.run_impl_lines(exe, lines)
+    st = chk.cov.setdefault("k3_trampoline", {"cases": 0, "agree": 0, "max_size": 0, "deferred_cases": 0})
+    for (d, tree), line, mo, io in zip(cases, lines, mout, iout):
+        st["cases"] += 1
+        size = tree.count("(")
+        st["max_size"] = max(st["max_size"], size)
+        deferred = ":1:1," in ("," + io + ",")[3:]      # something ran from drain()
+        nontrivial = size >= 3
+        chk.count(line, nontrivial)
+        why = tramp_monitor(d, tree, io)
+        if io == mo and not why:
+            st["agree"] += 1
+            chk.cov["traces_validated_against_impl"] += 1
+            if nontrivial and size <= 12:
+                chk.sample({"unit": "trampoline", "impl_line": line, "impl": io[:200], "model": mo[:200]})
+            continue
+        chk.cov["disagreements_checked"] += 1
+        rp = chk.replay_file("trampoline_%d_%s" % (d, tree[:30]),
+                             {"kind": "trampoline", "line": line, "model": mo, "impl": io, "monitor": why,
+                              "obligation": "K3 correspondence TrampolineDefs.v vs trampoline_scheduler.hpp/.cpp",
+                              "replay": "echo '%s' | %s" % (line, exe)})
+        chk.violation("trampoline/%s" % ("monitor" if why else "corr"), rp, no_input=not why,
+                      text="%s: impl=%s model=%s %s" % (line[:80], io[:100], mo[:100], why))
+
 def run(chk, replay=None):
     chk.cov["trusted_base"] = [
         "Coq 8.16.1 kernel; no axioms (Print Assumptions closed) for every theorem in Properties_C06_*.v",
-        "extraction ExtrOcamlBasic only; ocaml/lockstep.ml, handlers/h_eventloop.ml glue",
-        "harness: verif_shim.hpp + dsched (serialises real threads: sequential consistency assumed; mutex/condvar/thread are the shim's), k1_event_loop.cpp"]
+        "extraction ExtrOcamlBasic only; ocaml/lockstep.ml, handlers/h_eventloop.ml, h_trampoline.ml, h_atomicqueue.ml glue",
+        "harness: verif_shim.hpp + dsched (serialises real threads: sequential consistency assumed; mutex/condvar/thread are the shim's), "
+        "k1_event_loop.cpp, k1_atomic_queue.cpp; k3_trampoline.cpp (plain build, no shim)",
+        "modelled not verified: inplace_stop_source internals (C03's model) — only the stop bit of each item's source is owned here"]
     chk.cov["rule"] = ("K1: all schedules of each program with <= bound preemptions plus seeded random ones; "
-                       "distinct = distinct projected traces; non-trivial = at least two context switches among owned events")
+                       "distinct = distinct projected traces; non-trivial = at least two context switches among owned events. "
+                       "K3 (trampoline): cases = (depth, tree); non-trivial = tree with >= 3 operations; distinct by input line")
     chk.prove()
     k1.run_unit(chk, sched.EventLoop())
+    run_trampoline(chk)
+    if hasattr(sched, "AtomicQueue"):
+        k1.run_unit(chk, sched.AtomicQueue())
